@@ -539,6 +539,20 @@ func discharge(o *Obligation, outDir string, timeoutS int) *OblResult {
 	}
 	q := o.query()
 	r.Query = q
+	if o.ExpectSat {
+		// vacuity covers: two solvers are enough (a cover that cannot be decided costs its full time limit)
+		sr := solveOn(outDir, o.Name, []queryVariant{{"", q, true}}, timeoutS, []string{"z3-5.1.0", "cvc5-1.0.3"})
+		r.Solver, r.Ms, r.Output, r.AllStat = sr.Solver, sr.Ms, sr.Output, sr.All
+		switch sr.Status {
+		case "sat":
+			r.Status = "discharged"
+		case "unsat":
+			r.Status = "failed"
+		default:
+			r.Status = "undecided"
+		}
+		return r
+	}
 	if o.Canary {
 		sr := solve(outDir, o.Name, []queryVariant{{"", q, true}}, timeoutS)
 		r.Solver, r.Ms, r.Output, r.AllStat = sr.Solver, sr.Ms, sr.Output, sr.All
